@@ -136,25 +136,24 @@ impl<'de> Deserialize<'de> for JoinRule {
     where
         D: Deserializer<'de>,
     {
-        let json: Box<RawJsonValue> = Box::deserialize(deserializer)?;
+        // Deserialize to a `JsonValue` rather than a `RawJsonValue`, because the latter is not
+        // supported when this type is flattened into a struct, like in the redacted event content.
+        let json = JsonValue::deserialize(deserializer)?;
 
-        #[derive(Deserialize)]
-        struct ExtractType<'a> {
-            #[serde(borrow)]
-            join_rule: Option<Cow<'a, str>>,
-        }
+        let join_rule = match json.get("join_rule") {
+            Some(JsonValue::String(join_rule)) => join_rule.clone(),
+            Some(_) => return Err(D::Error::custom("invalid type for field `join_rule`, expected a string")),
+            None => return Err(D::Error::missing_field("join_rule")),
+        };
 
-        let join_rule = serde_json::from_str::<ExtractType<'_>>(json.get())
-            .map_err(Error::custom)?
-            .join_rule
-            .ok_or_else(|| D::Error::missing_field("join_rule"))?;
-
-        match join_rule.as_ref() {
+        match join_rule.as_str() {
             "invite" => Ok(Self::Invite),
             "knock" => Ok(Self::Knock),
             "private" => Ok(Self::Private),
-            "restricted" => from_raw_json_value(&json).map(Self::Restricted),
-            "knock_restricted" => from_raw_json_value(&json).map(Self::KnockRestricted),
+            "restricted" => serde_json::from_value(json).map(Self::Restricted).map_err(Error::custom),
+            "knock_restricted" => {
+                serde_json::from_value(json).map(Self::KnockRestricted).map_err(Error::custom)
+            }
             "public" => Ok(Self::Public),
             _ => Ok(Self::_Custom(PrivOwnedStr(join_rule.into()))),
         }
